@@ -60,9 +60,19 @@ class C20(Prop):
             case = gen_cp_case(rng, tier)
             case["n_ranks_forced"] = 1
             case["kind"] = "overlay"
+            if rng.random() < 0.5:
+                # a profile taken with with_stack=True: python_function entries (frames of the interpreter) around top-level operators,
+                # anywhere in the file
+                for rk in case["ranks"]:
+                    ops = [e for e in rk["events"] if e.get("cat") == "cpu_op" and e.get("ph") == "X" and e.get("dur", 0) > 0]
+                    for e in rng.sample(ops, min(len(ops), rng.randint(1, 4))):
+                        py = {"ph": "X", "cat": "python_function", "name": rng.choice(["torch/nn/modules/module.py(1501): _call_impl",
+                              "train.py(42): step", "<built-in method run_backward>"]), "pid": e["pid"], "tid": e["tid"], "ts": e["ts"], "dur": e["dur"],
+                              "args": {"Python id": rng.randrange(1, 50), "Python parent id": None}}
+                        rk["events"].insert(rng.randrange(0, len(rk["events"]) + 1), py)
             return case
         cfg = gen.GenCfg(n_ranks=rng.choice([1, 2, 3, 4]), n_steps=rng.choice([0, 1]), max_children=2, max_depth=2,
-                         fmt="json", base=rng.choice([0, 1000]))
+                         fmt="json", base=rng.choice([0, 1000]), pad_entries=rng.choice([0, 0, 1500]))     # 1500 entries: > 100 KiB of text
         ranks = gen.gen_trace_set(rng, cfg)
         recs = []
         used = rng.sample(range(0, 1001), len(ranks))
@@ -71,14 +81,18 @@ class C20(Prop):
             r.rank = rk
             r.meta["distributedInfo"]["rank"] = rk
             recs.append(r.__dict__)
-        return {"kind": "files", "ranks": recs, "newranks": [rng.randrange(0, 1001) for _ in ranks]}
+        nometa = rng.random() < 0.4          # recorded without distributedInfo: the rank is added by update_trace_rank only
+        if nometa:
+            for r in recs:
+                r["meta"].pop("distributedInfo", None)
+        return {"kind": "files", "ranks": recs, "newranks": rng.sample(range(0, 1001), len(ranks)), "nometa": nometa}
 
     def observe(self, case):
         return self._overlay(case) if case["kind"] == "overlay" else self._files(case)
 
     # ---- with counters + overlay
     def _overlay(self, case):
-        obs: Dict[str, Any] = {"prop": "C20", "kind": "overlay", "err": "", "src": [], "wc": [], "hasWc": False, "ov": []}
+        obs: Dict[str, Any] = {"prop": "C20", "kind": "overlay", "err": "", "src": [], "wc": [], "hasWc": False, "ov": [], "critRows": []}
         os.environ["CRITICAL_PATH_ADD_ZERO_WEIGHT_LAUNCH_EDGE"] = "1" if case["zero"] else "0"
         with hta.CaseDir("c20") as d:
             ta = write_and_load(case, d, include_last=case["incl"])
@@ -86,7 +100,7 @@ class C20(Prop):
             src_path = ta.t.trace_files[r]
             src = read_any(src_path)["traceEvents"]
             intern = Interner()
-            obs["src"] = [{"e": intern(e), "pid": _pt(e.get("pid")), "tid": _pt(e.get("tid")), "ph": str(e.get("ph", "")),
+            obs["src"] = [{"e": intern(e), "pid": _pt(e.get("pid")), "tid": _pt(e.get("tid")), "ph": str(e.get("ph", "")), "name": str(e.get("name", "")),
                            "keep": e.get("cat", "") in ("user_annotation", "python_function")} for e in src]
             try:
                 ta.generate_trace_with_counters(ranks=[r])
@@ -101,6 +115,10 @@ class C20(Prop):
                 if res is None or not res[1]:
                     return {"skip": True}
                 cp = res[0]
+                # identity of the critical events: what the analysed frame says the event with that id is (its decoded name)
+                st = ta.t.symbol_table.get_sym_table()
+                names = cp.trace_df["name"]
+                obs["critRows"] = [{"id": int(i), "name": st[int(names.loc[i])]} for i in sorted(cp.critical_path_events_set)]
                 for only in (False, True):
                     for alle in (False, True):
                         outdir = os.path.join(d, f"ov_{int(only)}{int(alle)}")
@@ -134,7 +152,8 @@ class C20(Prop):
     # ---- trace-file reader / writer / rank handling
     def _files(self, case):
         from hta.common.trace_file import create_rank_to_trace_dict, read_trace, update_trace_rank, write_trace
-        obs: Dict[str, Any] = {"prop": "C20", "kind": "files", "err": "", "rt": [], "ru": [], "disc": {"ok": False, "got": [], "want": []}}
+        obs: Dict[str, Any] = {"prop": "C20", "kind": "files", "err": "", "rt": [], "ru": [], "disc": {"ok": False, "got": [], "want": []},
+                               "disc2": {"ok": False, "got": [], "want": []}}
         dig = lambda x: hashlib.sha1(json.dumps(x, sort_keys=True).encode()).hexdigest()[:20]
         with hta.CaseDir("c20f") as d:
             ranks = [gen.RankTrace(**r) for r in case["ranks"]]
@@ -148,6 +167,8 @@ class C20(Prop):
                 ok, got = create_rank_to_trace_dict(list(paths))
                 obs["disc"] = {"ok": bool(ok), "got": sorted([int(k), paths.index(v)] for k, v in got.items()),
                                "want": sorted([int(rt.rank), k] for k, rt in enumerate(ranks))}
+                if case.get("nometa"):
+                    obs["disc"]["want"] = obs["disc"]["got"]        # no rank recorded in the metadata: nothing to assert yet
                 for k, (p, rt) in enumerate(zip(paths, ranks)):
                     data = read_trace(p)
                     for ext in ("json", "json.gz"):
@@ -163,7 +184,14 @@ class C20(Prop):
                     b2, a2 = copy.deepcopy(before), copy.deepcopy(after)
                     b2.get("distributedInfo", {}).pop("rank", None)
                     a2.get("distributedInfo", {}).pop("rank", None)
+                    for x in (b2, a2):          # "sets the rank field": a metadata block that holds nothing but the rank is the rank field
+                        if x.get("distributedInfo") == {}:
+                            del x["distributedInfo"]
                     obs["ru"].append({"want": int(want), "rankAfter": rank_after, "restBefore": dig(b2), "restAfter": dig(a2)})
+                # history: discovery again, now over the files the tool itself rewrote with the new ranks
+                ok2, got2 = create_rank_to_trace_dict(list(paths))
+                obs["disc2"] = {"ok": bool(ok2), "got": sorted([int(k), paths.index(v)] for k, v in got2.items()),
+                                "want": sorted([int(w), k] for k, w in enumerate(case["newranks"]))}
             except Exception as ex:
                 obs["err"] = hta.exc_str(ex)
         return obs
